@@ -995,6 +995,32 @@ func (e *Env) call(n *CNode) Val {
 			return Val{t: fmt.Sprintf("(select (select %s %s) %s)", g.get(e.state, kd), mv.t, kx.t), ty: tBool}
 		}
 		return Val{t: fmt.Sprintf("(select (select %s %s) %s)", g.get(e.state, kv), mv.t, kx.t), ty: mt.Elem()}
+	case "boundTo":
+		// boundTo(f, "M", x): the function value f is the method value x.M (x a pointer to a named type)
+		f := e.expr(n.Args[0])
+		recv := e.expr(n.Args[2])
+		pt, ok := recv.ty.Underlying().(*types.Pointer)
+		if !ok {
+			cxFail("boundTo: the receiver must be a pointer")
+		}
+		nt, ok := unaliasDeep(pt.Elem()).(*types.Named)
+		if !ok {
+			cxFail("boundTo: the receiver must point to a named type")
+		}
+		mname := typeArgName(n.Args[1])
+		found := false
+		for i := 0; i < nt.NumMethods(); i++ {
+			if nt.Method(i).Name() == mname {
+				found = true
+			}
+		}
+		if !found {
+			cxFail("boundTo: %s has no method %s", nt.Obj().Name(), mname)
+		}
+		full := "(*" + nt.Obj().Pkg().Path() + "." + nt.Obj().Name() + ")." + mname + "$bound"
+		g.declareFun("|$fnOf|", "(Int) Int")
+		g.declareFun("|$fnRecv|", "(Int) Int")
+		return Val{t: fmt.Sprintf("(and (= (|$fnOf| %s) %d) (= (|$fnRecv| %s) %s))", f.t, g.funcID(full), f.t, recv.t), ty: tBool}
 	case "onceDone":
 		// onceDone(addr(x.f)): the sync.Once at that address has run its function (ghost flag of the Once.Do model)
 		v := e.expr(n.Args[0])
